@@ -58,6 +58,10 @@ func (f *Setq) Call(s *slip.Scope, args slip.List, depth int) (result slip.Objec
 		}
 		i++
 		result = slip.EvalArg(s, args, i, d2)
+		switch result.(type) {
+		case *slip.ReturnResult, *GoTo:
+			return result
+		}
 		s.Set(sym, result)
 	}
 	return
